@@ -703,7 +703,9 @@ class Emitter:
                       'ONE': ('(Ruint.toLimbs LIMBS (1 % 2 ^ BITS))', 'uint'),
                       # `MAX = from_limbs_unmasked([u64::MAX; LIMBS]).masked()` (src/lib.rs)
                       'MAX': ('(uint_masked BITS LIMBS (List.replicate LIMBS (2 ^ 64 - 1)))', 'uint'),
-                      'SHOULD_MASK': ('(decide (BITS > 0) && ((mask BITS) != (2 ^ 64 - 1)))', 'bool')}
+                      'SHOULD_MASK': ('(decide (BITS > 0) && ((mask BITS) != (2 ^ 64 - 1)))', 'bool'),
+                      # `BYTES = nbytes(BITS)` (src/bytes.rs); `nbytes` is generated from the source
+                      'BYTES': ('(nbytes BITS)', 'usize')}
                 if p[1] in um:
                     return um[p[1]]
             if len(p) == 2 and p[0] in getattr(self, 'enums', {}):
@@ -995,6 +997,11 @@ class Emitter:
         if len(path) == 1:
             if name in ('unlikely', 'likely', 'Wrapping'):
                 return self.expr(args[0], env, exp)
+            if name in ('le_word', 'be_word') and len(args) == 2:
+                # stands for `u64::from_le_bytes` / `from_be_bytes` of the 8 bytes at the given offset (see the item's `rewrite`)
+                sb, _ = self.expr(args[0], env)
+                so, _ = self.expr(args[1], env, 'usize')
+                return '(Rs.%s %s %s)' % ('leWord' if name == 'le_word' else 'beWord', sb, so), 'u64'
             if name == 'zeroed_uint' and len(args) == 1:
                 # stands for `Uint::<B, L>::ZERO` of another limb count (see the item's `rewrite`)
                 sn, _ = self.expr(args[0], env, 'usize')
@@ -2390,6 +2397,19 @@ end Rs
 '''
 
 
+PRELUDE_BYTES = '''import Ruint.Gen.Prelude
+/-! Byte-level word reads used by the generated byte-slice decoders (hand-written, fixed). -/
+namespace Rs
+/-- `u64::from_le_bytes` of the 8 bytes of `bs` starting at `off` -/
+def leWord (bs : List Nat) (off : Nat) : Nat :=
+  (List.range 8).foldr (fun i acc => bs.getD (off + i) 0 + 256 * acc) 0
+/-- `u64::from_be_bytes` of the 8 bytes of `bs` starting at `off` -/
+def beWord (bs : List Nat) (off : Nat) : Nat :=
+  (List.range 8).foldl (fun acc i => acc * 256 + bs.getD (off + i) 0) 0
+end Rs
+'''
+
+
 def translate(items, namespace='Ruint.Gen', imports=('Ruint.Gen.Prelude',), fns=None, only_group=None):
     """items: list of dicts {file, fn, lean, self_ty?, key?, group?}; returns (lean source, errors).
     `fns` carries the signatures of functions translated in earlier groups."""
@@ -2633,6 +2653,18 @@ def uint_mod_items(repo):
     return out
 
 
+def bytes_items(repo):
+    """the byte-slice decoders every codec funnels into (src/bytes.rs); the two raw-pointer word reads of the full-limb fast
+    paths are declared rewrites to the prelude's `Rs.leWord` / `Rs.beWord`"""
+    u = {'self_ty': 'uint', 'uint': True, 'group': 'bytes', 'externs': UINT_EXTERNS, 'file': repo + '/src/bytes.rs'}
+    rw_le = [(r'u64::from_le_bytes\(unsafe \{ \*bytes\.as_ptr\(\)\.add\(i \* 8\)\.cast\(\) \}\)', 'le_word(bytes, i * 8)')]
+    rw_be = [(r'let end = bytes\.as_ptr_range\(\)\.end;', ''),
+             (r'u64::from_be_bytes\(unsafe \{ \*end\.sub\(\(i \+ 1\) \* 8\)\.cast\(\) \}\)',
+              'be_word(bytes, bytes.len() - (i + 1) * 8)')]
+    return [dict(u, fn='try_from_le_slice', lean='uint_try_from_le_slice', key='Uint::try_from_le_slice', rewrite=rw_le),
+            dict(u, fn='try_from_be_slice', lean='uint_try_from_be_slice', key='Uint::try_from_be_slice', rewrite=rw_be)]
+
+
 def radix_items(repo):
     """src/base_convert.rs: digit-sequence conversions (limb mode; errors are (variant index, fields))"""
     f = repo + '/src/base_convert.rs'
@@ -2655,13 +2687,14 @@ GROUPS = [('core', 'Words', ('Ruint.Gen.Prelude',)),
           ('uintdiv', 'WordsUintDiv', ('Ruint.Gen.WordsUint', 'Ruint.Gen.WordsKnuth')),
           ('radix', 'WordsRadix', ('Ruint.Gen.WordsUint',)),
           ('uintmod', 'WordsUintMod', ('Ruint.Gen.WordsUintDiv', 'Ruint.Gen.WordsRedcLoops')),
+          ('bytes', 'WordsBytes', ('Ruint.Gen.WordsUintMod', 'Ruint.Gen.PreludeBytes')),
           ('value', 'WordsValue', ('Ruint.Gen.Prelude', 'Ruint.Model.Modular'))]
 
 
 def translate_all(repo):
     """-> {module name: lean source}, errors"""
     fns = {}
-    files = {'Prelude': PRELUDE}
+    files = {'Prelude': PRELUDE, 'PreludeBytes': PRELUDE_BYTES}
     errors = []
     items = default_items(repo)
     items += uint_items(repo)
@@ -2672,6 +2705,7 @@ def translate_all(repo):
     items += uint_div_items(repo)
     items += radix_items(repo)
     items += uint_mod_items(repo)
+    items += bytes_items(repo)
     items += value_items(repo)
     try:
         items += lehmer_items(repo)
